@@ -750,6 +750,14 @@ func famCancel(o *corr.Out, n int) {
 			inflight++
 		}
 		before := lastPending(sc.obs[len(sc.obs)-1])
+		// a message already handed to the stream (the connection's reader is parked in Put with it): a
+		// receive pending now is not waiting for data but for the write lock (its initial flush)
+		msgWaiting := false
+		for _, g := range sc.w.LastObs().ClientCensus {
+			if strings.Contains(g, "packetBuffer).Put") {
+				msgWaiting = true
+			}
+		}
 		ob := sc.do("can!1")
 		// every call of the cancelled RPC must have returned now, without any help from the transport
 		var stuck []string
@@ -769,7 +777,12 @@ func famCancel(o *corr.Out, n int) {
 		// a receive that was blocked reports the context's error (unless the application itself had
 		// already terminated the stream with Close before the cancel)
 		appClosed := strings.Contains(strings.Join(sc.acts, ";"), "clo!x1")
-		if v, ok := res["r1.0"]; ok && contains(before, "r1.0") && v != "canceled" && !appClosed {
+		if v, ok := res["r1.0"]; ok && contains(before, "r1.0") && msgWaiting && strings.HasPrefix(v, "ok:") {
+			// the receive was held up by its flush, not by the lack of a message; it may deliver the
+			// message that was there before the cancel (which of the two it reports depends on the scheduler)
+			o.Stat("cancel:recv-held-by-flush-returned-message")
+			o.OracleOK("C04:blocked-recv-gets-ctx-error")
+		} else if v, ok := res["r1.0"]; ok && contains(before, "r1.0") && v != "canceled" && !appClosed {
 			o.Oracle("C04:blocked-recv-gets-ctx-error", sc.request(), "r1.0="+v)
 		} else {
 			o.OracleOK("C04:blocked-recv-gets-ctx-error")
